@@ -330,43 +330,52 @@ func c01RefView(s *c01Scn) c01ViewRef {
 				continue
 			}
 			amt := int64(e.amt)
+			// effect on: offerer's balance, recipient's balance, HTLC
+			// sum of the tip (kept in locals so that the symbolic
+			// conditions below merge instead of forking the path)
+			var dOff, dRcp, dTip int64
 			j := c01Remover(s, q, i)
 			if j < 0 {
 				// stays (or becomes) pending
 				r.newSum = r.newSum + amt
 				r.live[q] = append(r.live[q], i)
 				if e.addH[X] != 0 {
-					r.tipSum = r.tipSum + amt
+					dTip = amt
 				} else {
 					// newly offered: leaves the offerer's balance
-					r.bal[q] = r.bal[q] - amt
+					dOff = -amt
 				}
-				continue
-			}
-			rm := &s.logs[1-q][j]
-			if rm.rmvH[X] != 0 {
-				// resolved by an earlier commitment of this chain
-				continue
-			}
-			// in the tip (I1b), resolved by the new commitment
-			r.tipSum = r.tipSum + amt
-			if rm.kind == c01KSettle {
-				// fulfilled: the recipient (the remover) is paid
-				r.bal[1-q] = r.bal[1-q] + amt
 			} else {
-				// failed: back to the offerer
-				r.bal[q] = r.bal[q] + amt
+				rm := &s.logs[1-q][j]
+				settle := rm.kind == c01KSettle
+				if rm.rmvH[X] != 0 {
+					// resolved by an earlier commitment of this chain
+				} else if settle {
+					// in the tip (I1b); fulfilled by the new
+					// commitment: the recipient (the remover) is paid
+					dTip = amt
+					dRcp = amt
+				} else {
+					// failed: back to the offerer
+					dTip = amt
+					dOff = amt
+				}
 			}
+			r.bal[q] = r.bal[q] + dOff
+			r.bal[1-q] = r.bal[1-q] + dRcp
+			r.tipSum = r.tipSum + dTip
 		}
 	}
 	// untrimmed outputs on X's commitment at the new fee rate
+	var untrim int64
 	for q := 0; q < 2; q++ {
 		for _, i := range r.live[q] {
 			if !c01RefDust(s.ct, q == X, r.feePerKw, s.logs[q][i].amt, s.dust[X]) {
-				r.untrim = r.untrim + 1
+				untrim = untrim + 1
 			}
 		}
 	}
+	r.untrim = untrim
 	return r
 }
 
